@@ -40,6 +40,7 @@ def _args():
     ap.add_argument("--fault-class", choices=["mixed", "on", "off"], default="mixed")
     ap.add_argument("--wall-cap", type=float, default=0.0, help="safety cap in seconds; 0 = none")
     ap.add_argument("--samples", type=int, default=1)
+    ap.add_argument("--sweeps", help="A:B = crash-point sweeps A..B-1 of this shard instead of random runs")
     return ap.parse_args()
 
 
@@ -55,6 +56,117 @@ def gen_digest(seed, shard, lo, hi, fault_class):
 
 def _add(d, k, n=1):
     d[k] = d.get(k, 0) + n
+
+
+def report_divergence(a, vio, steps, envs, d0, fuel, fname, meta):
+    """Minimise, write the replay file, fill ``vio`` (path, minimised size, flags)."""
+    from sim import shrink
+
+    mini = shrink.Minimiser(steps, envs, d0["id"], d0["class"], fuel=fuel)
+    best = mini.run()
+    path = os.path.join(a.replay_dir, fname)
+    common = {"hash_seed": int(os.environ.get("PYTHONHASHSEED", "0") or 0), "fuel": fuel, "original_steps": len(steps),
+              "candidates_tried": mini.candidates, **meta}
+    if best is None:
+        # seen once, not again in 6 immediate re-runs: the manifestation is not a function of
+        # the program alone (object addresses / heap layout). Both executions were real, so it
+        # is still a divergence; keep the whole program, unminimised, and say so.
+        shrink.write_replay(path, steps=[dict(s) for s in steps], envs=envs, sid=d0["id"], klass=d0["class"],
+                            detail=d0["detail"],
+                            meta={**common, "minimised_steps": len(steps), "flaky": True, "observe": "all",
+                                  "unreproduced_in_shard": True})
+        vio["replay"] = path
+        vio["minimised_steps"] = len(steps)
+        vio["unreproduced_in_shard"] = True
+    else:
+        ren, sid = shrink.renumber(best, d0["id"])
+        shrink.write_replay(path, steps=ren, envs=envs, sid=sid, klass=d0["class"], detail=mini.last_detail,
+                            meta={**common, "minimised_steps": len(ren), "flaky": mini.flaky, "observe": mini.observe})
+        vio["replay"] = path
+        vio["minimised_steps"] = len(ren)
+
+
+def fault_sweeps(a, lo, hi, fuel):
+    """Crash-point enumeration over sampled histories: for a seeded fault-free program, one target
+    operation is aborted at EVERY logical step of its execution (all steps up to 150, evenly spaced
+    beyond), one warm run per position; cold references are computed once and shared."""
+    from sim import gen, shard as sh
+
+    out = {"sweeps": 0, "positions": 0, "fired": 0, "probes": 0, "agree": 0, "inconclusive": 0, "diverge": {},
+           "diverging_positions": 0, "violations": [], "harness": [], "sites": {}, "target_ops": {}, "target_lengths": []}
+    kinds = list(gen.FAULT_KINDS)
+    minimised = 0
+    for k in range(lo, hi):
+        rs = gen.run_seed(a.seed, a.shard, 10_000_000 + k)
+        rng = random.Random(rs)
+        base = gen.gen_scripts(rng, False)
+        if base["config"].get("marathon"):
+            continue
+        prog = gen.schedule_program(rng, base)
+        steps = [dict(s) for s in prog["steps"]]
+        for s in steps:
+            s.pop("fault", None)
+        envs = gen.make_envs(steps)
+        cold_cache = {}
+        base_res = sh.evaluate_program(steps, envs, fuel=fuel, shims=False, cold_cache=cold_cache)
+        if base_res["harness"]:
+            out["harness"].append({"sweep": k, "what": base_res["harness"]})
+            continue
+        steps = base_res["steps"]  # echoes concretised: the text no longer depends on the fault
+        lengths = {r["id"]: r["clock"] - r["clock0"] for r in base_res["warm"]["records"] if r["status"] == "ok"}
+        cands = [s["id"] for s in steps if s["op"] in ("and", "or", "reparse", "parse") and lengths.get(s["id"], 0) >= 8
+                 and s["id"] < len(steps) - 1]
+        if not cands:
+            continue
+        heavy = [c for c in cands if steps[c]["op"] in ("and", "or")]
+        # two targets: a random heavy operation, and the first sizeable operation of the process (where
+        # lazily initialised state is built for the first time)
+        targets = [rng.choice(heavy or cands)]
+        if cands[0] not in targets and rng.random() < 0.5:
+            targets.append(cands[0])
+        out["sweeps"] += 1
+        retry = rng.random() < 0.7
+        for target in targets:
+            length = lengths[target]
+            cap = 150 if target == targets[0] else 60
+            positions = list(range(1, length + 1)) if length <= cap else sorted({1 + int(i * (length - 1) / (cap - 1)) for i in range(cap)})
+            out["target_ops"][steps[target]["op"]] = out["target_ops"].get(steps[target]["op"], 0) + 1
+            out["target_lengths"].append(length)
+            for pos in positions:
+                variant = [dict(s) for s in steps]
+                variant[target]["fault"] = {"exc": kinds[pos % len(kinds)], "at": pos, "retry": retry}
+                res = sh.evaluate_program(variant, envs, fuel=fuel, shims=False, cold_cache=cold_cache, skip_trivial=True)
+                if res["harness"]:
+                    out["harness"].append({"sweep": k, "pos": pos, "what": res["harness"]})
+                    continue
+                out["positions"] += 1
+                rec = res["warm"]["records"][target]
+                if (rec.get("fault") or {}).get("fired"):
+                    out["fired"] += 1
+                    site = rec["fault"].get("site") or "?"
+                    out["sites"][site] = out["sites"].get(site, 0) + 1
+                for p in res["probes"]:
+                    if p["verdict"] in ("trivial", "unsampled"):
+                        continue
+                    out["probes"] += 1
+                    if p["verdict"] == "agree":
+                        out["agree"] += 1
+                    elif p["verdict"] == "inconclusive":
+                        out["inconclusive"] += 1
+                    elif p["verdict"] == "diverge":
+                        out["diverge"][p["class"]] = out["diverge"].get(p["class"], 0) + 1
+                if res["divergences"]:
+                    out["diverging_positions"] += 1
+                    d0 = res["divergences"][0]
+                    vio = {"run": f"sweep{k}@{target}:{pos}", "run_seed": rs, "step": d0["id"], "class": d0["class"],
+                           "n_steps": len(variant), "faulted": True, "all": [[d["id"], d["class"]] for d in res["divergences"]]}
+                    if minimised < a.max_minimise:
+                        minimised += 1
+                        report_divergence(a, vio, variant, envs, d0, fuel, f"C10-{a.seed}-{a.shard}-sweep{k}-{target}-{pos}.json",
+                                          {"verif_seed": a.seed, "shard": a.shard, "sweep": k, "target": target, "position": pos,
+                                           "run_seed": rs})
+                    out["violations"].append(vio)
+    return out
 
 
 def main():
@@ -148,6 +260,16 @@ def main():
         sh.assert_pristine()
         print(json.dumps({"replay": a.replay, "reproduced": bool(same), "diverged": d is not None, "attempts": used,
                           "observed": d, "hash_seed": os.environ.get("PYTHONHASHSEED")}))
+        return 0
+
+    if a.sweeps:
+        slo, shi = (int(x) for x in a.sweeps.split(":"))
+        t0 = time.monotonic()
+        out = fault_sweeps(a, slo, shi, fuel)
+        sh.assert_pristine()
+        out["hash_seed"] = os.environ.get("PYTHONHASHSEED")
+        out["wall_s"] = round(time.monotonic() - t0, 3)
+        print(json.dumps(out))
         return 0
 
     t0 = time.monotonic()
@@ -277,34 +399,8 @@ def main():
                    "faulted": faulted, "all": [[d["id"], d["class"]] for d in res["divergences"]]}
             if minimised < a.max_minimise:
                 minimised += 1
-                mini = shrink.Minimiser(steps, envs, d0["id"], d0["class"], fuel=fuel)
-                best = mini.run()
-                if best is None:
-                    # seen once, not again in 6 immediate re-runs: the manifestation is not a function of
-                    # the program alone (object addresses / heap layout). Both executions were real, so it
-                    # is still a divergence; keep the whole program, unminimised, and say so.
-                    path = os.path.join(a.replay_dir, f"C10-{a.seed}-{a.shard}-{run}.json")
-                    shrink.write_replay(
-                        path, steps=[dict(s) for s in steps], envs=envs, sid=d0["id"], klass=d0["class"], detail=d0["detail"],
-                        meta={"verif_seed": a.seed, "shard": a.shard, "run": run, "run_seed": rs,
-                              "hash_seed": int(os.environ.get("PYTHONHASHSEED", "0") or 0), "fuel": fuel,
-                              "original_steps": len(steps), "minimised_steps": len(steps), "flaky": True, "observe": "all",
-                              "unreproduced_in_shard": True, "candidates_tried": mini.candidates, "event_log_digest": digest})
-                    vio["replay"] = path
-                    vio["minimised_steps"] = len(steps)
-                    vio["unreproduced_in_shard"] = True
-                else:
-                    ren, sid = shrink.renumber(best, d0["id"])
-                    path = os.path.join(a.replay_dir, f"C10-{a.seed}-{a.shard}-{run}.json")
-                    shrink.write_replay(
-                        path, steps=ren, envs=envs, sid=sid, klass=d0["class"], detail=mini.last_detail,
-                        meta={"verif_seed": a.seed, "shard": a.shard, "run": run, "run_seed": rs,
-                              "hash_seed": int(os.environ.get("PYTHONHASHSEED", "0") or 0), "fuel": fuel,
-                              "original_steps": len(steps), "minimised_steps": len(ren),
-                              "flaky": mini.flaky, "observe": mini.observe,
-                              "candidates_tried": mini.candidates, "event_log_digest": digest})
-                    vio["replay"] = path
-                    vio["minimised_steps"] = len(ren)
+                report_divergence(a, vio, steps, envs, d0, fuel, f"C10-{a.seed}-{a.shard}-{run}.json",
+                                  {"verif_seed": a.seed, "shard": a.shard, "run": run, "run_seed": rs, "event_log_digest": digest})
             out["violations"].append(vio)
     sh.assert_pristine()
     out["signatures"] = sorted(sigs)
